@@ -4,9 +4,9 @@ import GqlModel.Validate.Engine
 
   `checkDepthFragmentSpread` adds the fragment name to `visitedFragments` for the duration of the
   visit only (`defer delete`), so the set is exactly the chain of fragments being visited: it is
-  passed down functionally.  A fragment is re-explored every time it is reached on a different
-  path — the running time is exponential in the document size (DESIGN §7 R2c), and so is the
-  model's.  The jump into a fragment definition is again the parameter of the structural
+  passed down functionally.  The `cleared` memo (repair of DESIGN §7 R2c: a fragment explored
+  completely from some depth without reaching the limit is skipped at that depth or a smaller
+  one) persists across siblings, so it is threaded through the results.  The jump into a fragment definition is again the parameter of the structural
   functions; `depthLevel n` allows `n - 1` nested jumps (the chain has pairwise distinct names).
 -/
 namespace Gql.Validate.Rules
@@ -17,38 +17,60 @@ def maxListsDepth : Nat := 3
 def isListField (nm : Name) : Bool :=
   nm == str "fields" || nm == str "interfaces" || nm == str "possibleTypes" || nm == str "inputFields"
 
-/-- visited chain → depth → fragment body → result (`none` = out of fuel) -/
-abbrev DJump := List Name → Nat → Selections → Option Bool
+/-- `introspectionDepthState.cleared`: for fragments explored completely, the deepest starting
+    depth from which the limit was not reached (first entry for a name wins) -/
+abbrev Cleared := List (Name × Nat)
+
+/-- visited chain → depth → cleared → fragment body → result (`none` = out of fuel) -/
+abbrev DJump := List Name → Nat → Cleared → Selections → Option (Bool × Cleared)
+
+/-- already explored from at least this depth without reaching the limit -/
+def clearedSkip (cl : Cleared) (nm : Name) (depth : Nat) : Bool :=
+  match cl.lookup nm with
+  | some at_ => decide (depth ≤ at_)
+  | none => false
+
+/-- remember a completed exploration (keeps the deepest starting depth) -/
+def clearedUpdate (cl : Cleared) (nm : Name) (depth : Nat) : Cleared :=
+  match cl.lookup nm with
+  | some at_ => if depth > at_ then (nm, depth) :: cl else cl
+  | none => (nm, depth) :: cl
 
 mutual
-  def checkDepthSelection (l : Links) (d : QueryDoc) (jump : DJump) (visited : List Name) (depth : Nat) :
-      Selection → Option Bool
+  def checkDepthSelection (l : Links) (d : QueryDoc) (jump : DJump) (visited : List Name) (depth : Nat)
+      (cl : Cleared) : Selection → Option (Bool × Cleared)
     | .field _ nm _ _ sub _ =>
       -- checkDepthField
       if isListField nm then
-        if depth + 1 ≥ maxListsDepth then some true
-        else checkDepthSelections l d jump visited (depth + 1) sub
-      else checkDepthSelections l d jump visited depth sub
+        if depth + 1 ≥ maxListsDepth then some (true, cl)
+        else checkDepthSelections l d jump visited (depth + 1) cl sub
+      else checkDepthSelections l d jump visited depth cl sub
     | .spread nm _ p =>
       -- checkDepthFragmentSpread
-      if visited.contains nm then some false
+      if visited.contains nm then some (false, cl)
+      else if clearedSkip cl nm depth then some (false, cl)
       else match l.spreadDef d nm p with
-        | none => some false
-        | some f => jump (nm :: visited) depth f.sel
-    | .inline _ _ sub _ => checkDepthSelections l d jump visited depth sub
-  def checkDepthSelections (l : Links) (d : QueryDoc) (jump : DJump) (visited : List Name) (depth : Nat) :
-      Selections → Option Bool
-    | .nil => some false
+        | none => some (false, cl)
+        | some f =>
+          match jump (nm :: visited) depth cl f.sel with
+          | none => none
+          | some (true, cl') => some (true, cl')
+          | some (false, cl') =>
+            some (false, clearedUpdate cl' nm depth)
+    | .inline _ _ sub _ => checkDepthSelections l d jump visited depth cl sub
+  def checkDepthSelections (l : Links) (d : QueryDoc) (jump : DJump) (visited : List Name) (depth : Nat)
+      (cl : Cleared) : Selections → Option (Bool × Cleared)
+    | .nil => some (false, cl)
     | .cons x rest =>
-      match checkDepthSelection l d jump visited depth x with
+      match checkDepthSelection l d jump visited depth cl x with
       | none => none
-      | some true => some true
-      | some false => checkDepthSelections l d jump visited depth rest
+      | some (true, cl') => some (true, cl')
+      | some (false, cl') => checkDepthSelections l d jump visited depth cl' rest
 end
 
 def depthLevel (l : Links) (d : QueryDoc) : Nat → DJump
-  | 0 => fun _ _ _ => none
-  | n + 1 => fun visited depth sels => checkDepthSelections l d (depthLevel l d n) visited depth sels
+  | 0 => fun _ _ _ _ => none
+  | n + 1 => fun visited depth cl sels => checkDepthSelections l d (depthLevel l d n) visited depth cl sels
 
 def outOfFuelMsg : Bytes := str "model: out of fuel"
 
@@ -56,11 +78,11 @@ def maxIntrospectionDepthStep (_ : SV) (d : QueryDoc) (e : Event) : Except Bytes
   match e.p with
   | .field f _ _ =>
     if f.name == str "__schema" || f.name == str "__type" then
-      match checkDepthSelection e.links d (depthLevel e.links d (d.frags.length + 1)) [] 0
+      match checkDepthSelection e.links d (depthLevel e.links d (d.frags.length + 1)) [] 0 []
           (.field f.alias f.name f.args f.dirs f.sel f.pos) with
       | none => .error outOfFuelMsg
-      | some true => .ok [errAt (str "Maximum introspection depth exceeded") f.pos]
-      | some false => .ok []
+      | some (true, _) => .ok [errAt (str "Maximum introspection depth exceeded") f.pos]
+      | some (false, _) => .ok []
     else .ok []
   | _ => .ok []
 
